@@ -228,6 +228,28 @@ func init() {
 			}
 			return us
 		}})
+	register(&PropCheck{ID: "C09", Level: "model_checking",
+		Rule:        "stall deviations: at every scheduling point of the default schedule one goroutine is made unschedulable for D in {1,6,11,35,5001,12000} virtual ms while timers and the other goroutines proceed (bound 1; pairs at bound 2), plus preemptions at bound 1; programs whose meaning fixes a single result",
+		Assumptions: commonAssumptions,
+		Budget:      budget(170*time.Second, 28*time.Minute),
+		Units: func(tier string) []*Unit {
+			var us []*Unit
+			stalls := []int64{1, 6, 11, 35, 5001, 12000}
+			for _, s := range runScenarios("quick", true) {
+				if !s.Ref.Unique {
+					continue
+				}
+				s1 := *s
+				s1.Name = s.Name + "/stalls"
+				us = append(us, scenarioUnit(&s1, exploreOpts{bound: tierBound(tier, 1, 2), menu: vrt.MenuOf(vrt.KStall), stalls: stalls, cancelMS: -1, maxExecs: tierBound(tier, 6000, 400000)}, oracleC09))
+				if tier == "thorough" {
+					s2 := *s
+					s2.Name = s.Name + "/stall+preempt"
+					us = append(us, scenarioUnit(&s2, exploreOpts{bound: 2, menu: menuTSE, stalls: []int64{35}, cancelMS: -1, maxExecs: 400000}, oracleC09))
+				}
+			}
+			return us
+		}})
 	register(&PropCheck{ID: "C07", Level: "model_checking",
 		Rule:        "no goroutine panics and no fatal runtime misuse on any explored schedule; unevaluable expressions end the run with an error",
 		Assumptions: commonAssumptions,
